@@ -82,9 +82,22 @@ Proof.
   - intros Hm. destruct ((2 * 1440 <=? m) || (m <? -1440)) eqn:E1; [reflexivity|lia].
 Qed.
 
-(* the guard [sm_ok (offset + d)] is exact: without it the Go code panics ("Integer overflow") *)
-Lemma plus_overflow_crash :
-  time_plus {| t_hour := 0; t_min := 1; t_shift := 0; t_24h := true |} max_int64 = Crash CIntegerOverflow.
+(* since fix K6 (Time.Plus checks the addition itself) an offset + duration outside the safemath range is an
+   ordinary error: the int64 hypothesis of [plus_spec] is not needed *)
+Lemma plus_spec_total t d : valid_time t -> sm_ok d = true ->
+  let m := time_offset t + d in
+  (-1440 <= m < 2880 -> exists t', time_plus t d = Ok t' /\ valid_time t' /\ time_offset t' = m /\ t_24h t' = t_24h t) /\
+  (~ (-1440 <= m < 2880) -> time_plus t d = Err EImpossibleOperation).
+Proof.
+  intros Hv Hd m. destruct (sm_ok (time_offset t + d)) eqn:E.
+  - exact (plus_spec t d Hv Hd E).
+  - pose proof (offset_bounds t Hv) as Hb. split.
+    + intros Hm. subst m. unfold sm_ok, sm_min, max_int64 in E. lia.
+    + intros _. unfold time_plus, add64. rewrite E. rewrite !andb_false_r. reflexivity.
+Qed.
+
+Lemma plus_overflow_is_error :
+  time_plus {| t_hour := 0; t_min := 1; t_shift := 0; t_24h := true |} max_int64 = Err EImpossibleOperation.
 Proof. vm_compute. reflexivity. Qed.
 
 (* ---- time round trip: finite sweep over all 8,640 (hour, minute, shift, notation) values ---- *)
